@@ -12,6 +12,11 @@ use serde_json::{json, Value};
 use std::panic::{catch_unwind, AssertUnwindSafe};
 
 pub fn str_case(s: &str) -> Value {
+    if s.len() > 16384 {
+        // generated long inputs are recorded by generator and size (see run_long); building a
+        // megabyte of JSON for each of thousands of violations of one long input is what would hang
+        return json!({"kind": "string-truncated", "len": s.len(), "text_prefix": s.chars().take(200).collect::<String>()});
+    }
     json!({"kind": "string", "text": s, "hex": s.bytes().map(|b| format!("{b:02x}")).collect::<String>()})
 }
 pub fn case_text(case: &Value) -> Result<String, String> {
